@@ -54,6 +54,8 @@ type Store struct {
 	// fault plan
 	Absent       map[string]bool // reads of these CIDs fail
 	AbsentErr    error           // nil => ErrNotFound{cid}
+	FailWriteStyle int           // how a failing Write reports: 0 = (0, err), 1 = (len(p), err), 2 = (len(p)/2, err)
+	Closed       bool            // the store has been shut: every read fails
 	IgnoreCtx    bool            // serve reads whatever context they are made under
 	CtxLost      int             // reads refused because the request context was missing or cancelled
 	FailReadAt   int             // k-th read-open (1-based) fails; 0 = never
@@ -221,7 +223,7 @@ func (s *Store) ClearFaults() {
 	s.mu.Lock()
 	defer s.mu.Unlock()
 	s.Absent, s.AbsentErr = nil, nil
-	s.FailReadAt, s.FailWOpenAt, s.FailCommitAt, s.FailWriteAt = 0, 0, 0, 0
+	s.FailReadAt, s.FailWOpenAt, s.FailCommitAt, s.FailWriteAt, s.FailWriteStyle = 0, 0, 0, 0, 0
 	s.FailErr = nil
 	s.LoadBudget = 0
 }
@@ -249,6 +251,9 @@ func (s *Store) OpenRead(lc linking.LinkContext, l datamodel.Link) (io.Reader, e
 	cl, ok := l.(cidlink.Link)
 	if !ok {
 		return nil, fmt.Errorf("verif store: not a cid link: %T", l)
+	}
+	if s.Closed {
+		return nil, fmt.Errorf("verif store: read from a store that has been closed")
 	}
 	if !s.IgnoreCtx {
 		// a request-scoped block source: it serves only reads made under the caller's context
@@ -320,6 +325,17 @@ func (w *writer) Write(p []byte) (int, error) {
 	err := w.s.failErr()
 	w.s.mu.Unlock()
 	if fail {
+		switch w.s.FailWriteStyle {
+		case 1:
+			// the bytes were taken (buffered, mirrored to a first sink) and the failure is reported with them
+			w.buf.Write(p)
+			return len(p), err
+		case 2:
+			// a short write
+			k := len(p) / 2
+			w.buf.Write(p[:k])
+			return k, err
+		}
 		return 0, err
 	}
 	return w.buf.Write(p)
